@@ -271,6 +271,49 @@ def splice_case(ctx, n):
     ctx.evaluations += max(cnt - 1, 0)
 
 
+def threshold_case(ctx, case):
+    """verifier-chosen slack threshold (run_script additional_flags) governs both locks, also inside the chain lock's calls"""
+    n, thr = case
+    seed = ctx.seed
+    sk, pk = keys(seed)
+    fields = sf(seed)
+    t = TNOW
+    cnt = 0
+    if n == 0:
+        b, e = window('begin+1', t)
+        c = cert(seed, 'x', 'root', 'd1', b, e, True)
+        lock = T.make_delegate_key_lock(pk['root']).bytes
+        w = T.make_delegate_key_witness(sk['d1'], c, dict(fields)).bytes
+    else:
+        links = build_links(seed, n, ['begin+1'] * n, [True] * n, ['correct'] * n, t)
+        lock = T.make_delegate_key_chain_lock(pk['root']).bytes
+        w = chain_witness(seed, links, 'd%d' % n, fields)
+    for d in (-2, -1, 0, 1, 50):
+        now = t - (max(thr, 0) + d)
+        env.Clock.now = now
+        cnt += 1
+        want = thr <= 0 or (t - now < thr)
+        try:
+            _, stack, _ = F.run_script(w + lock, {**fields, 'timestamp': t}, additional_flags={'ts_threshold': thr})
+            got = stack.list() == [b'\xff']
+        except BaseException:
+            got = False
+        ctx.ran()
+        ctx.trans(2)
+        ctx.state(('thr', n, thr, d))
+        ctx.outcome('thr:%s' % got)
+        if got is not want:
+            ctx.violation({'lock': 'delegate_key_lock' if n == 0 else 'delegate_key_chain_lock', 'clause': 'verifier slack threshold',
+                           'kind': 'accepts' if got else 'rejects'},
+                          f'chain length {n} ts_threshold={thr} t-now={t - now}: {got}, model {want}')
+        from mc.diff import compare
+        r = compare(w + lock, ro={**fields, 'timestamp': t}, flags={'ts_threshold': thr}, now=now)
+        if r.verdict == 'viol':
+            ctx.violation({'lock': 'delegate_key_lock' if n == 0 else 'delegate_key_chain_lock', 'clause': 'verifier slack threshold',
+                           'oracle': 'reference interpreter'}, f'chain length {n} ts_threshold={thr} t-now={t - now}: {r.detail[:300]}')
+    ctx.evaluations += cnt - 1
+
+
 # ---------------------------------------------------------------- certificate serialisation
 VALS = [0, 1, 127, 128, 255, 256, 32767, 32768, 65535, 65536, 2 ** 24 - 1, 2 ** 24, 2 ** 31 - 1]
 
@@ -322,6 +365,9 @@ def blocks(tier, seed):
               nshards=min(len(cc), 128)),
         Block('chain_splices_orders_markers', list(range(1, (4 if q else 5) + 1)), splice_case,
               'cross-chain splices, all certificate orders, all marker patterns, prefix chains', nshards=8),
+        Block('custom_slack_threshold', [(n, thr) for n in range(0, 4 if q else 6) for thr in (10, 300, 61, 0, -1)], threshold_case,
+              'single and chain locks (length 1..%d) through run_script with additional_flags ts_threshold in {10, 61, 300, 0, -1} x clock '
+              'positions around it' % (3 if q else 5), nshards=32),
         Block('certificate_serialisation', VALS, cert_case, 'begin x end over boundary values x flag x key patterns', nshards=len(VALS)),
     ]
 
